@@ -191,7 +191,7 @@ MOutcome(s) ==
          [] s.k = "unknown"    -> "err"
 
 \* octets allocated for a length-prefixed field before its octets are read
-Announced(s) == CASE s.bm \in {"namebig", "valbig"} -> 268435456
+Announced(s) == CASE s.bm \in {"namebig", "valbig"} -> 4194304
                   [] s.bm \in {"namemax", "valmax"} -> 2147483647   \* stands for 2^32-1
                   [] OTHER -> 64
 MPrealloc(s) == IF s.k = "data" THEN (IF s.len \in {"big", "long"} THEN 100000 ELSE 64)
